@@ -34,6 +34,7 @@ pub enum N {
     MapMacro(Vec<N>, Box<N>),   // size([..].map(x, t(x) + body))
     AllMacro(Vec<N>, Box<N>),   // ([..].all(x, t(x) + body > -1000000) ? 1 : 0)
     Contains(Vec<N>, Box<N>),   // ([..].contains(e) ? 1 : 0)
+    Conv(u8, Box<N>),           // a chain of built-in conversions through other types, value unchanged
 }
 
 fn args_src(a: &[N]) -> String {
@@ -55,6 +56,16 @@ impl N {
             N::MapMacro(a, b) => format!("size([{}].map(x, t(x) + {}))", args_src(a), b.render()),
             N::AllMacro(a, b) => format!("([{}].all(x, t(x) + {} > -1000000) ? 1 : 0)", args_src(a), b.render()),
             N::Contains(a, e) => format!("([{}].contains({}) ? 1 : 0)", args_src(a), e.render()),
+            N::Conv(k, e) => match k % 8 {
+                0 => format!("int(double({}))", e.render()),
+                1 => format!("int(string({}))", e.render()),
+                2 => format!("int({})", e.render()),
+                3 => format!("string({}).int()", e.render()),
+                4 => format!("double({}).int()", e.render()),
+                5 => format!("int(double(string({})))", e.render()),
+                6 => format!("(size(string({})) > 0 ? int(string({}).double()) : 0)", e.render(), N::Tag(-7).render()),
+                _ => format!("int(string({}).int().double())", e.render()),
+            },
         }
     }
     /// reference interpreter: strict left-to-right, receiver before arguments, each operand once
@@ -131,6 +142,14 @@ impl N {
                 let x = e.eval(log);
                 vs.contains(&x) as i64
             }
+            N::Conv(k, e) => {
+                let v = e.eval(log);
+                if k % 8 == 6 {
+                    N::Tag(-7).eval(log)
+                } else {
+                    v
+                }
+            }
         }
     }
     fn has_two_calls(&self) -> bool {
@@ -160,7 +179,11 @@ fn tree(rng: &mut Rng, depth: u32, tag: &mut i64) -> N {
     }
     let d = depth - 1;
     let mut kids = |rng: &mut Rng, n: usize, tag: &mut i64| -> Vec<N> { (0..n).map(|_| { let dd = if rng.chance(1, 2) { d } else { d.min(1) }; tree(rng, dd, tag) }).collect() };
-    match rng.below(14) {
+    match rng.below(16) {
+        14 | 15 => {
+            let e = tree(rng, d, tag);
+            N::Conv(rng.below(8) as u8, Box::new(e))
+        }
         0 | 1 => {
             let k = rng.below(5) as usize;
             N::Host(k, kids(rng, k, tag))
@@ -272,6 +295,17 @@ pub fn generate(tier: Tier, rng: &mut Rng) -> Vec<Case> {
             s = format!("int({s})");
         }
         push(s, None, 1, vec!["chain-builtin"], &mut out);
+        // each step converts to another type (no conversion is the identity)
+        let mut s = "t(1)".to_string();
+        for i in 0..depth {
+            s = match i % 4 {
+                0 => format!("double({s})"),
+                1 => format!("string({s})"),
+                2 => format!("int({s})"),
+                _ => format!("h1(uint({s}))"),
+            };
+        }
+        push(s, None, depth / 4 + 1, vec!["chain-builtin-alternating"], &mut out);
         let mut s = "t(1)".to_string();
         for _ in 0..depth {
             s = format!("m1(h2({s}, t(2)), t(3))");
